@@ -27,7 +27,7 @@ func refMSM7(t int) bool { return t >= 1077 && t <= 1137 && t%10 == 7 }
 
 // C20 enumerates all 4096 message types and the two negative sentinels.
 func C20(r *ev.Run) {
-	r.Rule = "complete enumeration of message types -2..4095; each type is one case; each type is also sent, as CRC-valid frames of 9 payload lengths (2..300, including the sizes of 1005/1006 and padded ones) followed by a second frame, through HandleMessages, whose classification must agree with GetMessage; non-trivial = every case (each exercises 10 classification observations); distinct = distinct type values"
+	r.Rule = "complete enumeration of message types -2..4095; each type is one case; each type is also sent, as CRC-valid frames of 9 payload lengths (2..300, including the sizes of 1005/1006 and padded ones) followed by a second frame, through HandleMessages, whose classification must agree with GetMessage, and is classified again after four short histories on one handler (an intact frame of the other kind and damaged or truncated frames of this type), which must give what a fresh handler gives; non-trivial = every case (each exercises 10 classification observations); distinct = distinct type values"
 	r.Assumptions = []string{"constellation names are compared by case-insensitive stem (gps, glonass, galileo, sbas, qzss, beidou, navic), not by exact spelling"}
 	start := time.Date(2023, 5, 10, 12, 0, 0, 0, time.UTC)
 	names := map[string]int{} // constellation name -> decade
@@ -189,6 +189,36 @@ func C20(r *ev.Run) {
 				fail(t, "1006-decoder-acceptance", fmt.Sprintf("1006 decoder accepted=%v for type %d", e == nil, t), t == 1006, e == nil)
 			}
 			r.Count(0, 0, 4, 0)
+		}
+		// classification must not depend on what the handler saw before: an intact
+		// frame of the other kind, then a damaged frame of this type (rejected after
+		// its leader was parsed), then the intact frame
+		{
+			other := ref.HeaderOnlyMSM(1077, 1000)
+			if e4 || e7 {
+				other = ref.TypedFrame(1005, 19, nil)
+			}
+			damaged := append([]byte{}, frame...)
+			damaged[len(damaged)-1] ^= 0x01
+			for _, hist := range [][][]byte{{other, damaged}, {damaged}, {other, frame[:len(frame)-2]}, {other, other, damaged, damaged}} {
+				h := handler.New(start, slog.LevelInfo)
+				for _, f := range hist {
+					guard(func() { h.GetMessage(f) })
+				}
+				var m *handler.Message
+				var err error
+				cl, site, p := guard(func() { m, err = h.GetMessage(frame) })
+				r.Count(0, 0, 1, 0)
+				fresh, ferr := handler.New(start, slog.LevelInfo).GetMessage(frame)
+				switch {
+				case p:
+					fail(t, "getmessage-panic-after-history "+cl+"@"+site, "GetMessage panics after a rejected frame of the same type", nil, cl)
+				case m == nil || fresh == nil:
+					fail(t, "nil-message-after-history", "nil message", nil, nil)
+				case m.MessageType != fresh.MessageType || m.Timestamp != fresh.Timestamp || (m.SentAt == "") != (fresh.SentAt == "") || (m.StartOfWeek == "") != (fresh.StartOfWeek == "") || m.ErrorMessage != fresh.ErrorMessage || (err == nil) != (ferr == nil):
+					fail(t, "classification-depends-on-earlier-frames", fmt.Sprintf("type %d after %d earlier frames (one of them a rejected frame of this type): type=%d timestamp=%d sentAt=%q error=%q; on a fresh handler: type=%d timestamp=%d sentAt=%q error=%q", t, len(hist), m.MessageType, m.Timestamp, m.SentAt, m.ErrorMessage, fresh.MessageType, fresh.Timestamp, fresh.SentAt, fresh.ErrorMessage), fresh.ErrorMessage, m.ErrorMessage)
+				}
+			}
 		}
 		// the byte-stream route (what every application uses) must classify a frame
 		// as GetMessage does, whatever its length: short, exactly the size of a
